@@ -57,6 +57,7 @@ struct Ctx {
 };
 
 int tcmp(pconstpointer a, pconstpointer b, ppointer) { long x = (long)a, y = (long)b; return x < y ? -1 : x > y; }
+int g_native_keys_used = 1;   // the library's own key
 std::atomic<long> g_thr_done{0};   // harness-side: the body of a (possibly detached) thread has used its key for the last time
 ppointer thr_fn(ppointer arg) {
   PUThreadKey *k = (PUThreadKey *)arg;
@@ -271,7 +272,12 @@ void run_episode(Ctx &x, const Ep &e) {
       if (e3) p_error_free(e3);
     }
   } else if (k == "thread") {
-    PUThreadKey *key = (e.a % 2 && !vl::excluded("tls-key")) ? p_uthread_local_new(free) : NULL;
+    // native TLS keys are never given back (p_uthread_local_free keeps the native key by design, p_libsys_shutdown too) and a process has
+    // about 1000 of them: once they are gone the library cannot even remember a thread's own handle (every p_uthread_current allocates a new
+    // one) - an exhausted environment, not a leak.  This process uses at most 400 of them; later episodes run without a key / skip the cycle
+    bool key_budget = g_native_keys_used < 400; if (e.a % 2 && !key_budget) vl::stats().count("thread_episode_without_key_native_key_budget_spent");
+    PUThreadKey *key = (e.a % 2 && !vl::excluded("tls-key") && key_budget) ? p_uthread_local_new(free) : NULL;
+    if (key) g_native_keys_used++;
     if (e.a % 2 && vl::excluded("tls-key")) vl::stats().count("excluded_tls_key");
     bool joinable = e.b % 3 != 0;
     static const char *names[] = {NULL, "t", "quite-a-long-thread-name-here"};
@@ -297,6 +303,8 @@ void run_episode(Ctx &x, const Ep &e) {
     else { (void)p_library_loader_get_symbol(l, "cos"); (void)p_library_loader_get_symbol(l, "nosuchsym"); pchar *err = p_library_loader_get_last_error(l); p_free(err); p_library_loader_free(l); }
   } else if (k == "libsys") {
     if (vl::excluded("libsys-cycle")) { vl::stats().count("excluded_libsys_cycle"); return; }
+    if (g_native_keys_used >= 400) { vl::stats().count("libsys_cycle_skipped_native_key_budget_spent"); return; }
+    g_native_keys_used++;   // the library's own key for thread handles is created anew after every init
     PMemVTable t; t.f_malloc = va::v_malloc; t.f_realloc = va::v_realloc; t.f_free = va::v_free;
     p_libsys_shutdown(); p_libsys_init_full(&t);
     (void)p_uthread_current(); // the main thread's lazily created handle is released by shutdown: re-create it so the baseline is comparable
